@@ -65,7 +65,7 @@ def _seg_ok(Pf, lo, hi, ms, bst, A, Bq, Babs, score):
     ]
 
 
-def _results_ok(e, P, R, brk, ms, bst, upto=None):
+def _results_ok(e, P, R, brk, ms, bst, upto=None, peak=None):
     """all results are SegOK, in order, separated; returns list of named clauses (quantified over k)"""
     Pf = e.pf(P.v)
     off, n = P.off, P.len
@@ -77,6 +77,8 @@ def _results_ok(e, P, R, brk, ms, bst, upto=None):
             forall(k, z3.Implies(rng(0, k, R.len), z3.And(*[x == y for x, y in zip(R[k].positions.v.arrs, P.v.arrs)])), trig))]
     for name, body in _seg_ok(Pf, off, off + n, ms, bst, A(k), Bq(k), off + brk[k], R[k].segmentScore):
         out.append((name, forall(k, z3.Implies(rng(0, k, R.len), body), trig)))
+    if peak is not None:
+        out.append(('segments_carry_the_seed_peak', forall(k, z3.Implies(rng(0, k, R.len), R[k].peak.ref == peak.ref), trig)))
     out.append(('separated_and_in_order', forall(k, z3.Implies(z3.And(1 <= k, k < R.len), off + brk[k - 1] < A(k)), [R.raw(k).t])))
     if upto is not None:
         out.append(('results_end_before_scan_start', forall(k, z3.Implies(rng(0, k, R.len), off + brk[k] < upto), trig)))
@@ -111,8 +113,9 @@ def _builder_inv(L):
                                                 [MP(Pf(U), Pf(T))])),
            ('current_dominates_window', forall(U, z3.Implies(z3.And(S < U, U <= E), Pf(U) - Pf(S) <= cs), [Pf(U)])),
            ('current_segment_shape', z3.Or(fresh, own, stale)),
+           ('current_segment_carries_the_seed_peak', cur.peak.ref == me.peak.ref),
            ('ghost_sync', brk.len == R.len)]
-    inv += _results_ok(e, P, R, brk, ms, bst, upto=S)
+    inv += _results_ok(e, P, R, brk, ms, bst, upto=S, peak=me.peak)
     return inv
 
 
@@ -130,16 +133,16 @@ def _builder_requires(C):
     return [('minScore_positive', me.minScore > 0),
             ('fresh_builder', z3.And(me.currentSegmentStart == 0, me.extendedSegmentEndPosition == 0,
                                      me.extendedSegmentScore == 0, me.currentSegment.segmentScore == 0,
-                                     me.resultSegments.len == 0)),
+                                     me.resultSegments.len == 0, me.currentSegment.peak.ref == me.peak.ref)),
             ('unpaired_positions_do_not_score', unpaired_do_not_score(P))]
 
 
-def _statement(e, P, res, brk, ms, bst):
+def _statement(e, P, res, brk, ms, bst, peak=None):
     """C13, clause by clause, over the returned list `res`"""
     k = z3.Int('k')
     single_empty = z3.And(res.len == 1, res[0].positions.len == 0, res[0].isa('EmptyAlignmentSegment'))
     cl = [('single_empty_segment_iff_no_run_qualifies', z3.Or(single_empty, z3.And(res.len >= 1, res[0].positions.len > 0)))]
-    for name, term in _results_ok(e, P, res, brk, ms, bst):
+    for name, term in _results_ok(e, P, res, brk, ms, bst, peak=peak):
         cl.append((name, z3.Or(single_empty, term)))
     # start and end on a positively scored pair
     Pf = e.pf(P.v)
@@ -182,7 +185,7 @@ def _factory_ensures(C, res):
     brk = SkolemList('brk')
     if C.has('F'):
         brk = C._st.notes['builder_brk']
-    return _statement(C._e, C.positions, res, brk, C.self.minScore, C.self.breakSegmentThreshold)
+    return _statement(C._e, C.positions, res, brk, C.self.minScore, C.self.breakSegmentThreshold, peak=C.peak)
 
 
 def _builder_ensures_logged(C, res):
@@ -192,7 +195,7 @@ def _builder_ensures_logged(C, res):
     else:
         brk = SkolemList('brk')
         C._st.notes['builder_brk'] = brk
-    return _statement(C._e, me.positions, res, brk, me.minScore, me.breakSegmentThreshold)
+    return _statement(C._e, me.positions, res, brk, me.minScore, me.breakSegmentThreshold, peak=me.peak)
 
 
 factory_getSegments = FunctionSpec(
